@@ -107,4 +107,171 @@ theorem iter_perm {a₁ a₂ : List Change} (h : a₁.Perm a₂) (r : Nat) : ite
   unfold iter
   have : children a₁ = children a₂ := funext (children_congr (fun c => h.mem_iff))
   rw [this, h.length_eq]
+
+/-! ### the depth-first traversal -/
+
+/-- descendant-or-equal along the child function -/
+inductive Desc (ch : Nat → List Nat) : Nat → Nat → Prop
+  | refl (x) : Desc ch x x
+  | step {x c y} : c ∈ ch x → Desc ch c y → Desc ch x y
+
+theorem Desc.rk_le {ch : Nat → List Nat} {rk : Nat → Nat} (hrk : ∀ x, ∀ c ∈ ch x, rk c < rk x)
+    {x y : Nat} (h : Desc ch x y) : rk y ≤ rk x := by
+  induction h with
+  | refl => exact Nat.le_refl _
+  | step hc _ ih => have := hrk _ _ hc; omega
+
+/-- the accumulated sequence has no duplicates and lists every node before all of its children -/
+def Good (ch : Nat → List Nat) (acc : List Nat) : Prop :=
+  acc.Nodup ∧ ∀ l1 x l2, acc = l1 ++ x :: l2 → ∀ c ∈ ch x, c ∈ l2
+
+theorem good_nil (ch : Nat → List Nat) : Good ch [] := by
+  refine ⟨List.nodup_nil, ?_⟩
+  intro l1 x l2 h; simp at h
+
+theorem Good.closed {ch : Nat → List Nat} {acc : List Nat} (h : Good ch acc) :
+    ∀ x ∈ acc, ∀ c ∈ ch x, c ∈ acc := by
+  intro x hx c hc
+  obtain ⟨l1, l2, rfl⟩ := List.append_of_mem hx
+  have := h.2 l1 x l2 rfl c hc
+  simp [this]
+
+/-- what one `visit` (or a run of visits) does to the accumulator -/
+structure Ext (ch : Nat → List Nat) (roots : List Nat) (acc r : List Nat) : Prop where
+  good : Good ch r
+  pre : ∃ pre, r = pre ++ acc ∧ ∀ y ∈ pre, ∃ x ∈ roots, Desc ch x y
+  mem : ∀ x ∈ roots, x ∈ r
+
+theorem visitAll_ext (ch : Nat → List Nat) (f : Nat) (rk : Nat → Nat)
+    (P : ∀ x acc, rk x < f → Good ch acc → Ext ch [x] acc (visit ch f x acc)) :
+    ∀ (cs : List Nat) (acc : List Nat), (∀ c ∈ cs, rk c < f) → Good ch acc →
+      Ext ch cs acc (cs.foldl (fun a c => visit ch f c a) acc) := by
+  intro cs
+  induction cs with
+  | nil =>
+    intro acc _ hg
+    exact ⟨hg, ⟨[], by simp⟩, by simp⟩
+  | cons c cs ih =>
+    intro acc hrk hg
+    have h1 := P c acc (hrk c (by simp)) hg
+    have h2 := ih (visit ch f c acc) (fun d hd => hrk d (List.mem_cons_of_mem _ hd)) h1.good
+    simp only [List.foldl_cons]
+    obtain ⟨p1, hp1, hd1⟩ := h1.pre
+    obtain ⟨p2, hp2, hd2⟩ := h2.pre
+    refine ⟨h2.good, ⟨p2 ++ p1, by rw [hp2, hp1]; simp, ?_⟩, ?_⟩
+    · intro y hy
+      rcases List.mem_append.mp hy with hy | hy
+      · obtain ⟨x, hx, hd⟩ := hd2 y hy
+        exact ⟨x, List.mem_cons_of_mem _ hx, hd⟩
+      · obtain ⟨x, hx, hd⟩ := hd1 y hy
+        have : x = c := by simpa using hx
+        subst this
+        exact ⟨x, by simp, hd⟩
+    · intro x hx
+      rcases List.mem_cons.mp hx with rfl | hx
+      · have := h1.mem x (by simp)
+        rw [hp2]; exact List.mem_append.mpr (Or.inr this)
+      · exact h2.mem x hx
+
+theorem visit_ext (ch : Nat → List Nat) (rk : Nat → Nat) (hrk : ∀ x, ∀ c ∈ ch x, rk c < rk x) :
+    ∀ (f : Nat) (x : Nat) (acc : List Nat), rk x < f → Good ch acc → Ext ch [x] acc (visit ch f x acc) := by
+  intro f
+  induction f with
+  | zero => intro x acc h; omega
+  | succ f ih =>
+    intro x acc hx hg
+    unfold visit
+    split
+    · rename_i hc
+      have hc' : x ∈ acc := by simpa using hc
+      exact ⟨hg, ⟨[], by simp⟩, by simpa using hc'⟩
+    · rename_i hc
+      have hxa : x ∉ acc := by simpa using hc
+      have hfold := visitAll_ext ch f rk (fun y a hy hga => ih y a hy hga) (ch x).reverse acc
+        (by intro c hcm; have := hrk x c (List.mem_reverse.mp hcm); omega) hg
+      obtain ⟨p, hp, hd⟩ := hfold.pre
+      have hxp : x ∉ p := by
+        intro hxp
+        obtain ⟨c, hcm, hdc⟩ := hd x hxp
+        have h1 := hrk x c (List.mem_reverse.mp hcm)
+        have h2 := hdc.rk_le hrk
+        omega
+      refine ⟨⟨?_, ?_⟩, ⟨x :: p, by rw [hp]; simp, ?_⟩, by simp⟩
+      · refine List.nodup_cons.mpr ⟨?_, hfold.good.1⟩
+        rw [hp]; intro h
+        rcases List.mem_append.mp h with h | h
+        · exact hxp h
+        · exact hxa h
+      · intro l1 y l2 hdec c hcm
+        cases l1 with
+        | nil =>
+          simp only [List.nil_append, List.cons.injEq] at hdec
+          obtain ⟨rfl, rfl⟩ := hdec
+          exact hfold.mem c (List.mem_reverse.mpr hcm)
+        | cons z l1 =>
+          simp only [List.cons_append, List.cons.injEq] at hdec
+          exact hfold.good.2 l1 y l2 hdec.2 c hcm
+      · intro y hy
+        rcases List.mem_cons.mp hy with rfl | hy
+        · exact ⟨y, by simp, Desc.refl y⟩
+        · obtain ⟨c, hcm, hdc⟩ := hd y hy
+          exact ⟨x, by simp, Desc.step (List.mem_reverse.mp hcm) hdc⟩
+
+
+/-! ### well-formed attachment lists are acyclic -/
+
+/-- an attachment list: ids are unique, and no change names a later-attached change (or itself) as a
+previous id - `Tree.attach` only runs when all previous ids are already attached -/
+inductive WFAtt : List Change → Prop
+  | nil : WFAtt []
+  | snoc {att : List Change} {c : Change} : WFAtt att → c.id ∉ att.map (·.id) → c.id ∉ c.prevs →
+      (∀ d ∈ att, c.id ∉ d.prevs) → WFAtt (att ++ [c])
+
+theorem mem_children_snoc {att : List Change} {c : Change} {x y : Nat} :
+    y ∈ children (att ++ [c]) x ↔ y ∈ children att x ∨ (y = c.id ∧ x ∈ c.prevs) := by
+  rw [mem_children, mem_children]
+  constructor
+  · rintro ⟨ch, hch, h1, h2⟩
+    rcases List.mem_append.mp hch with h | h
+    · exact Or.inl ⟨ch, h, h1, h2⟩
+    · have : ch = c := by simpa using h
+      subst this; exact Or.inr ⟨h1.symm, h2⟩
+  · rintro (⟨ch, hch, h1, h2⟩ | ⟨h1, h2⟩)
+    · exact ⟨ch, List.mem_append.mpr (Or.inl hch), h1, h2⟩
+    · exact ⟨c, by simp, h1.symm, h2⟩
+
+theorem children_mem_ids {att : List Change} {x y : Nat} (h : y ∈ children att x) : y ∈ att.map (·.id) := by
+  obtain ⟨ch, hch, h1, _⟩ := mem_children.mp h
+  exact List.mem_map.mpr ⟨ch, hch, h1⟩
+
+/-- a well-formed attachment list is acyclic: there is a rank that strictly decreases along `Next` -/
+theorem wf_rank {att : List Change} (h : WFAtt att) :
+    ∃ rk : Nat → Nat, (∀ x, ∀ c ∈ children att x, rk c < rk x) ∧ (∀ x, rk x ≤ att.length) ∧
+      (∀ x, x ∉ att.map (·.id) → rk x = att.length) := by
+  induction h with
+  | nil => exact ⟨fun _ => 0, by intro x c hc; simp [children, sortIds] at hc, by simp, by simp⟩
+  | @snoc att c _ hid hself hlater ih =>
+    obtain ⟨rk, h1, h2, h3⟩ := ih
+    refine ⟨fun y => if y = c.id then 0 else rk y + 1, ?_, ?_, ?_⟩
+    · intro x y hy
+      rcases mem_children_snoc.mp hy with hy | ⟨rfl, hx⟩
+      · have hyid := children_mem_ids hy
+        have hyc : y ≠ c.id := fun e => hid (e ▸ hyid)
+        have hxc : x ≠ c.id := by
+          intro e
+          obtain ⟨d, hd, _, hp⟩ := mem_children.mp hy
+          exact hlater d hd (e ▸ hp)
+        simp [hyc, hxc]; exact h1 x y hy
+      · have hxc : x ≠ c.id := fun e => hself (e ▸ hx)
+        simp [hxc]
+    · intro x
+      by_cases hx : x = c.id
+      · simp [hx]
+      · simp [hx]; exact h2 x
+    · intro x hx
+      have hxc : x ≠ c.id := by intro e; apply hx; simp [e]
+      have : x ∉ att.map (·.id) := by intro h; apply hx; simp at h ⊢; exact Or.inl h
+      simp [hxc, h3 x this]
+
+
 end AnySync.Tree
